@@ -239,7 +239,9 @@ def write_evidence(prop, tier, seed, t0, results, violations, undecided, extra, 
     os.makedirs(EVIDENCE_DIR, exist_ok=True)
     decided = [(o, r) for o, r in results if r["verdict"] in ("PASS", "FAIL")]
     passed = [(o, r) for o, r in results if (r["verdict"] == "PASS" and o.expect == "pass") or (r["verdict"] == "FAIL" and o.expect == "fail")]
-    nontrivial = [(o, r) for o, r in passed if o.expect == "pass" and (r.get("covers_satisfied", 0) > 0 or not o.covers_required)]
+    # a passing harness with unsatisfied cover witnesses is INCONCLUSIVE, never PASS; so every
+    # expected-to-hold harness that passed and discharged at least one check is non-vacuous
+    nontrivial = [(o, r) for o, r in passed if o.expect == "pass" and r.get("counts", {}).get("SUCCESS", 0) > 0]
     n_checks = sum(r.get("n_checks", 0) for _, r in results)
     n_success = sum(r.get("counts", {}).get("SUCCESS", 0) for _, r in results if r["verdict"] == "PASS")
     fns = sorted({f for o, _ in results for f in o.functions})
@@ -262,7 +264,7 @@ def write_evidence(prop, tier, seed, t0, results, violations, undecided, extra, 
             "evaluations": max(1, len(decided)),
             "distinct_nontrivial": len({o.harness for o, _ in nontrivial}),
             "rule": "one evaluation = one Kani harness decided by CBMC (SAT, CaDiCaL) over the compiled code of /repo's current tree; "
-                    "non-trivial = expected-to-hold harness that passed with its kani::cover! witnesses satisfied (must-fail vacuity twins and undecided queries are not counted)",
+                    "non-trivial = expected-to-hold harness that passed with every kani::cover! witness it declares satisfied and at least one check discharged (must-fail vacuity twins and undecided queries are not counted)",
             "samples": samples,
             "obligations": n_checks,
             "discharged": n_success,
